@@ -16,13 +16,15 @@ trap 'rm -rf "$W"' EXIT INT TERM
 # hooks overlay: every hooks/<pkg>_zz_verif.go becomes /repo/<pkg>/zz_verif.go
 hooks_entries() {
   sep=""
-  for f in $V/hooks/*_zz_verif.go; do
-    pkg=$(basename "$f" _zz_verif.go)
-    if [ "$pkg" = root ]; then dst=$REPO/zz_verif.go; else dst=$REPO/$pkg/zz_verif.go; fi
+  for f in $V/hooks/*_zz_verif.go $V/hooks/*_zz_verifint$HOOKVAR.go; do
+    [ -f "$f" ] || continue
+    b=$(basename "$f" .go); pkg=${b%%_zz_*}; name=zz_${b#*_zz_}
+    if [ "$pkg" = root ]; then dst=$REPO/$name.go; else dst=$REPO/$pkg/$name.go; fi
     printf '%s"%s":"%s"' "$sep" "$dst" "$f"
     sep=","
   done
 }
+HOOKVAR=""
 { printf '{"Replace":{'; hooks_entries; printf '}}\n'; } > "$W/overlay.json" || exit 2
 OVERLAY="$W/overlay.json"
 TAGS=verif
@@ -32,6 +34,14 @@ MODFLAG=""
 if [ "$REPO" != /repo ]; then
   sed "s|=> /repo|=> $REPO|" go.mod > "$W/go.mod"; [ -f go.sum ] && cp go.sum "$W/go.sum"
   MODFLAG="-modfile=$W/go.mod"
+fi
+# the seams into private functions (hooks/*_zz_verifint.go) are optional: if they do not compile against
+# the current sources (a private function was renamed or re-shaped) their stubs are used instead and
+# the harnesses that need them are reported as not done; everything else runs as usual
+if ! go build $MODFLAG -tags verif -overlay "$W/overlay.json" github.com/boombuler/barcode/qr 2> "$W/probe.err"; then
+  HOOKVAR="_stub"
+  { printf '{"Replace":{'; hooks_entries; printf '}}\n'; } > "$W/overlay.json" || exit 2
+  echo "note: hooks/qr_zz_verifint.go does not compile against the current sources; building with its stub" >&2
 fi
 if [ "$ID" = C16 ]; then
   # engine S: mechanically rewritten copies of the current /repo sources
